@@ -27,6 +27,7 @@ def run(prog, chk):
                     "keys are only consulted under `useProductionNames is None` (production names ON means renamed, whatever the UFO lib says) (R11.8)"]
     chk.decided += ["every compiled master - sparse layer masters included - goes through the post-processor: compile_one calls self.postprocess on the font it returns under no condition, so the masters of "
                     "one family are renamed alike (R11.9)"]
+    chk.decided += ["the post-processor keeps no container on the class that its methods write to: the names of one font do not depend on fonts processed earlier in the same process (R11.10)"]
     chk.not_decided += ["byte identity of the other tables (fontTools compile / reload)", "the glyph order itself"]
     chk.decided += ["each variable font is post-processed with its own UFO / info / glyph set, never with compiler state of the last interpolable sub-space (R11.7)"]
     chk.guard(r111, prog, chk)
@@ -38,6 +39,7 @@ def run(prog, chk):
     chk.guard(r117, prog, chk)
     chk.guard(r118, prog, chk)
     chk.guard(r119, prog, chk)
+    chk.guard(r1110, prog, chk)
 
 
 def _keep_var(prog, f) -> str:
@@ -505,7 +507,53 @@ def r119(prog, chk):
     chk.minimum("R11.9", 1)
 
 
+# ----------------------------------------------------------------------------- R11.10
+_MUTATORS = {"add", "append", "extend", "update", "setdefault", "pop", "popitem", "clear", "remove", "discard", "insert", "__setitem__"}
+
+
+def r1110(prog, chk):
+    """Names of one font do not depend on fonts processed earlier in the same process: the post-processor keeps no
+    mutable container on the class (shared by all instances) that its methods write to."""
+    ix = prog.ix
+    n = 0
+    for ci in ix.classes.values():
+        if not ci.qname.startswith("ufo2ft.postProcessor"):
+            continue
+        shared = {}
+        for st in ci.node.body:
+            if isinstance(st, (ast.Assign, ast.AnnAssign)) and st.value is not None:
+                v = st.value
+                if isinstance(v, (ast.Dict, ast.List, ast.Set, ast.DictComp, ast.ListComp, ast.SetComp)) or \
+                        (isinstance(v, ast.Call) and A.callee_name(v) in ("dict", "list", "set", "defaultdict", "OrderedDict", "Counter", "WeakKeyDictionary", "WeakValueDictionary")):
+                    for t in (st.targets if isinstance(st, ast.Assign) else [st.target]):
+                        if isinstance(t, ast.Name):
+                            shared[t.id] = st
+        for name, st in sorted(shared.items()):
+            rebound = any(isinstance(t.value, ast.Name) and t.value.id == "self" for m in ci.methods.values() for _s, t, _v in attr_stores(m, name))
+            writes = []
+            for m in ci.methods.values():
+                for node in ast.walk(m.node):
+                    tgt = None
+                    if isinstance(node, ast.Subscript) and isinstance(node.ctx, (ast.Store, ast.Del)):
+                        tgt = node.value
+                    elif isinstance(node, ast.Call) and isinstance(node.func, ast.Attribute) and node.func.attr in _MUTATORS:
+                        tgt = node.func.value
+                    elif isinstance(node, ast.AugAssign):
+                        tgt = node.target
+                    if isinstance(tgt, ast.Attribute) and tgt.attr == name and isinstance(tgt.value, ast.Name) and tgt.value.id in ("self", "cls", ci.name) \
+                            or (isinstance(tgt, ast.Attribute) and tgt.attr == name and T(tgt.value) in ("type(self)", "self.__class__")):
+                        writes.append((m, node))
+            n += 1
+            ok = not writes or rebound
+            chk.ob("R11.10", f"{ci.name}.{name}|class-level container is never written by the methods", ok, where(writes[0][0], writes[0][1]) if writes else f"{ci.module.relpath}:{st.lineno}",
+                   detail=f"{len(writes)} write(s)", message=f"{ci.name}.{name} is a container on the class, shared by every {ci.name} of the process, and `{T(writes[0][1], 60) if writes else ''}` writes to it: "
+                   f"what one font put there (production names, by glyph name) is handed to the next font compiled in the same process")
+    chk.minimum("R11.10", 1)
+
+
 MUTANTS = [
+    M("production names memoised in a class-level dict (seeded C11m)", "ufo2ft/postProcessor.py", "PostProcessor.__init__",
+      "self._postscriptNames = ufo.lib.get('public.postscriptNames')", "self._postscriptNames = ufo.lib.get('public.postscriptNames')\nself.DEFAULT_SUBROUTINIZER_FOR_CFF_VERSION[id(ufo)] = None", rule="R11.10"),
     M("sparse layer masters skip post-processing (seeded C11l)", "ufo2ft/_compilers/baseCompiler.py", "BaseInterpolatableCompiler.compile_one",
       "ttf = self.postprocess(ttf, ufo, glyphSet)", "if layerName is None:\n    ttf = self.postprocess(ttf, ufo, glyphSet)", rule="R11.9"),
     M("explicit useProductionNames ignored when the lib says keepGlyphNames=False (seeded C11k)", "ufo2ft/postProcessor.py", "PostProcessor.process",
